@@ -4,6 +4,7 @@ import BertE.Model.Approvals
 import BertE.Model.ApprovalsSpec
 import BertE.Lemmas.Approvals
 import BertE.Drv.C04
+import BertE.Lemmas.AuthorOptions
 /-
 C04 — the review gate passes exactly when approvals suffice.
 
@@ -294,5 +295,42 @@ example : Spec.approvedStrict { exCfg with approve := false, unanimity := false,
     { exInput with approvals := ["author", "peer1"] } :=
   (C04_strict_reading_partial _ _ (Or.inl rfl)).mp (by decide)
 example : settingsValid BertE.Drv.C04.genRules ⟨2, 3, ["leader", "author"]⟩ = false := by decide
+
+/-! ### the per-author settings that feed the `bypass_*` helpers -/
+
+/-- **A per-author bypass is the author's own.** For every `pr_author_options` mapping that
+    `PrAuthorsOptions.deserialize` accepts — any number of authors, in any order — the pull-request author has
+    `author_bypass.get(key, False)` exactly when the (last) entry written for THAT author lists `key` and `key`
+    is one of the known bypasses: what is granted to other authors never counts. -/
+theorem C04_author_options (raw : BertE.AuthorOptions.Raw) (res : BertE.AuthorOptions.Opts)
+    (h : BertE.AuthorOptions.deserialize BertE.Gen.Approvals.bypassList raw [] = some res) (author key : String) :
+    BertE.AuthorOptions.authorBypass res author key =
+      match BertE.AuthorOptions.ownNames raw author with
+      | some names => BertE.Gen.Approvals.bypassList.contains key && names.contains key
+      | none => false := by
+  have := BertE.AuthorOptions.deserialize_spec _ raw [] res h author key
+  rw [this]
+  cases BertE.AuthorOptions.ownNames raw author <;> rfl
+
+/-- an unknown bypass name anywhere in the mapping is refused (IncorrectSettingsFile) -/
+theorem C04_author_options_unknown (bl : List String) (user : String) (names : List String)
+    (rest : BertE.AuthorOptions.Raw) (acc : BertE.AuthorOptions.Opts) (n : String) (hn : n ∈ names)
+    (hbad : bl.contains n = false) :
+    BertE.AuthorOptions.deserialize bl ((user, names) :: rest) acc = none := by
+  simp only [BertE.AuthorOptions.deserialize]
+  split
+  · rename_i hall
+    rw [List.all_eq_true] at hall
+    have := hall n hn
+    rw [hbad] at this; cases this
+  · rfl
+
+example : BertE.AuthorOptions.deserialize BertE.Gen.Approvals.bypassList
+    [("alice", ["bypass_peer_approval"]), ("bob", [])] [] ≠ none := by decide
+example :
+    (BertE.AuthorOptions.deserialize BertE.Gen.Approvals.bypassList
+      [("alice", ["bypass_peer_approval"]), ("bob", [])] []).map
+      (fun r => (BertE.AuthorOptions.authorBypass r "alice" "bypass_peer_approval",
+                 BertE.AuthorOptions.authorBypass r "bob" "bypass_peer_approval")) = some (true, false) := by decide
 
 end BertE.C04
